@@ -5,6 +5,7 @@ package fees
 
 import (
 	"encoding/binary"
+	"math/big"
 	"sync"
 
 	"github.com/ava-labs/avalanchego/utils/math"
@@ -224,9 +225,7 @@ func computeNextPriceWindow(
 	if total > target {
 		// If the parent block used more units than its target, the baseFee should increase.
 		delta := total - target
-		x := previousPrice * delta
-		y := x / target
-		baseDelta := y / changeDenom
+		baseDelta := proportionalDelta(previousPrice, delta, target, changeDenom)
 		if baseDelta < 1 {
 			baseDelta = 1
 		}
@@ -239,9 +238,7 @@ func computeNextPriceWindow(
 	} else if total < target {
 		// Otherwise if the parent block used less units than its target, the baseFee should decrease.
 		delta := target - total
-		x := previousPrice * delta
-		y := x / target
-		baseDelta := y / changeDenom
+		baseDelta := proportionalDelta(previousPrice, delta, target, changeDenom)
 		if baseDelta < 1 {
 			baseDelta = 1
 		}
@@ -252,7 +249,11 @@ func computeNextPriceWindow(
 		// that has elapsed between the parent and this block.
 		if since > window.WindowSize {
 			// Note: roll/rollupWindow must be greater than 1 since we've checked that roll > rollupWindow
-			baseDelta *= since / window.WindowSize
+			scaled, over := math.Mul(baseDelta, since/window.WindowSize)
+			if over != nil {
+				scaled = consts.MaxUint64
+			}
+			baseDelta = scaled
 		}
 		n, under := math.Sub(nextPrice, baseDelta)
 		if under != nil {
@@ -265,6 +266,18 @@ func computeNextPriceWindow(
 		nextPrice = minPrice
 	}
 	return nextPrice, newRollupWindow
+}
+
+// proportionalDelta returns floor(floor(price*delta/target)/changeDenom) computed
+// without intermediate overflow, saturating at the maximum uint64.
+func proportionalDelta(price, delta, target, changeDenom uint64) uint64 {
+	x := new(big.Int).Mul(new(big.Int).SetUint64(price), new(big.Int).SetUint64(delta))
+	x.Div(x, new(big.Int).SetUint64(target))
+	x.Div(x, new(big.Int).SetUint64(changeDenom))
+	if !x.IsUint64() {
+		return consts.MaxUint64
+	}
+	return x.Uint64()
 }
 
 type Rules interface {
